@@ -560,7 +560,7 @@ def scenarios():
 
 
 def run(ctx):
-    depth = 5 if ctx.quick else 6
+    depth = 5 if ctx.quick else 7
     walks = 40 if ctx.quick else 400
     every = scenarios()
     # the exhaustive part first: its counterexamples are the shortest of their scenario
